@@ -117,11 +117,8 @@ Section Main.
 
   (* ---- second half ----------------------------------------------------------------------------- *)
   Theorem format_partial fs e :
-    long_repeat (map (std_frame C) fs) = false -> plain_exc e = true ->
-    ei_text C fs e = std_text (std_tb C fs e).
-  Proof.
-    intros H He. rewrite ei_text_plain, (plain_exc_tb C fs e He). symmetry. apply std_text_plain. exact H.
-  Qed.
+    plain_exc e = true -> ei_text C fs e = std_text (std_tb C fs e).
+  Proof. intros He. rewrite ei_text_std, (plain_exc_tb C fs e He). reflexivity. Qed.
 
   Theorem frames_same l :
     let c := cp_of_live l in let s := std_frame C l in
@@ -130,9 +127,12 @@ Section Main.
   Proof. cbv zeta. repeat split. apply callpoint_line. Qed.
 
   (* ExceptionInfo's text is read back by ParsedException *)
-  Theorem format_reparse fs e :
-    wf C (ei_tb C fs e) = true -> from_string C (ei_text C fs e) = Ok (ei_tb C fs e).
-  Proof. intro H. rewrite ei_text_plain. apply parse_plain. exact H. Qed.
+  Theorem format_reparse_partial fs e :
+    wf C (ei_tb C fs e) = true -> long_repeat (map (std_frame C) fs) = false ->
+    from_string C (ei_text C fs e) = Ok (ei_tb C fs e).
+  Proof.
+    intros H Hr. rewrite ei_text_std, std_text_plain by exact Hr. apply parse_plain. exact H.
+  Qed.
 
   (* line numbers printed by str(int) are always acceptable to the parser *)
   Lemma dec_lineno_ok n : lineno_ok C (dec n) = true.
@@ -172,11 +172,13 @@ Proof. exists rec_tb. split; [vm_compute; reflexivity|]. vm_compute. discriminat
 Definition rec_live : live_frame := mkLive [114;46;112;121] 7 [102] [32;32;102;40;41;10].
 Definition rec_exc : live_exc := mkExc L_builtins [69] [69] (Some []) [69].
 
-(* the three recorded reasons: recursion, a display-time suggestion, a failing __str__ *)
-Lemma format_refuted_recursion :
-  exists fs e, plain_exc e = true /\ ei_text py_cc fs e <> std_text (std_tb py_cc fs e).
-Proof. exists (repeat rec_live 5), rec_exc. split; [reflexivity|]. vm_compute. discriminate. Qed.
+(* ExceptionInfo's own text is no longer read back once it is folded *)
+Lemma format_reparse_refuted :
+  exists fs e, wf py_cc (ei_tb py_cc fs e) = true /\
+               from_string py_cc (ei_text py_cc fs e) <> Ok (ei_tb py_cc fs e).
+Proof. exists (repeat rec_live 5), rec_exc. split; [vm_compute; reflexivity|]. vm_compute. discriminate. Qed.
 
+(* the two recorded reasons on the formatting side: a display-time suggestion, a failing __str__ *)
 Definition hint_exc : live_exc :=      (* AttributeError: no attribute 'bluch'. Did you mean: 'blech'? *)
   mkExc L_builtins [65;69] [65;69] (Some [110;111;32;98;108;117;99;104])
         ([65;69] ++ L_colon ++ [110;111;32;98;108;117;99;104] ++ L_hint ++ [39;98;108;101;99;104;39;63]).
@@ -184,14 +186,14 @@ Definition nostr_exc : live_exc :=     (* class Bad whose __str__ raises *)
   mkExc L_builtins [66;97;100] [66;97;100] None ([66;97;100] ++ L_colon ++ L_str_failed).
 
 Lemma format_refuted_hint :
-  exists fs e, long_repeat (map (std_frame py_cc) fs) = false /\ hint_of e <> None /\
+  exists fs e, hint_of e <> None /\
                ei_text py_cc fs e <> std_text (std_tb py_cc fs e).
-Proof. exists [rec_live], hint_exc. split; [reflexivity|]. split; vm_compute; discriminate. Qed.
+Proof. exists [rec_live], hint_exc. split; vm_compute; discriminate. Qed.
 
 Lemma format_refuted_str :
-  exists fs e, long_repeat (map (std_frame py_cc) fs) = false /\ hint_of e <> None /\
+  exists fs e, hint_of e <> None /\
                ei_text py_cc fs e <> std_text (std_tb py_cc fs e).
-Proof. exists [rec_live], nostr_exc. split; [reflexivity|]. split; vm_compute; discriminate. Qed.
+Proof. exists [rec_live], nostr_exc. split; vm_compute; discriminate. Qed.
 
 (* ---- witnesses used by the Examples of Props/C16.v ---------------------------------------------------- *)
 From Coq Require Import String.
